@@ -292,6 +292,7 @@ func (f *fields) add(v value) {
 func (f *fields) setAt(idx int, parent, v value) {
 	l := len(f.a)
 	if idx >= l {
+		verifGrow(l, idx+1)
 		tmp := make([]value, idx+1)
 		copy(tmp, f.a)
 
